@@ -752,12 +752,12 @@ pub fn run(prop: &'static str, tier: &str, seed: u64) -> i32 {
     let level = if prop == "C16" { "exploration" } else { "fault_enumeration" };
     let mut rep = Report::new(prop, tier, seed, level);
     rep.rule = match prop {
-        "C14" => "a normal 2- or 3-party run on the explorer; at (every / every k-th) idle point one stray command is injected at each party: duplicate schedule, run, consts, validate, mpc_msg with sender index n, n+1, usize::MAX (and, before scheduling, in-range senders). A command counts as definitely invalid only if it is invalid in every state the actor can be in given the RPC history; those must be answered Err, no actor may panic, and the C13 oracle must still hold for the computation. distinct = (program, leader, idle point, party, command kind); non-trivial = the command was injected and classified".to_string(),
+        "C14" => "a normal 2- or 3-party run on the explorer; at (every / every k-th) idle point one stray command is injected at each party: duplicate schedule, run, consts, validate, mpc_msg with sender index n, n+1, usize::MAX (and, before scheduling, in-range senders). A command counts as definitely invalid only if it is invalid in every state the actor can be in given the RPC history; those must be answered Err, no actor may panic, and the C13 oracle must still hold for the computation. distinct = (program, leader, idle point, party, command kind); non-trivial = the command was injected and classified. HTTP layer: two polytune-http-server instances on loopback sockets, per scenario one 2-party computation and one stray HTTP request (duplicate / ill-typed schedule, run, consts, validate, msg with own / out-of-range sender, unknown computation ids; before the schedules or 0..150 ms after them): requests invalid in every state get a non-2xx answer, both destinations still receive the correct result exactly once, both servers answer /health afterwards".to_string(),
         "C15" => "cancel() injected at every idle point (coordination and, with gated MPC messages, MPC events) on each party, with MPC messages gated and ungated, plus cancels injected while the compile thread of a heavier program is alive. Oracle when cancel() returned Ok: actor stopped at quiescence, exactly one notification (Cancelled, or the real result) if the party has a destination and had been scheduled, nothing sent to it after cancel returned, all permits back. distinct = (program, leader, gating, idle point, party); non-trivial = cancel() returned Ok".to_string(),
         "C16" => "program or leader mismatch at each single follower that still regards itself as follower, and ill-typed programs at each party, n in {2,3}, every leader, scripted arrival / delivery orders (validate before and after the follower's schedule) plus random orders. Oracle: the schedule calls of that follower and of the leader end with an error, no Ok output anywhere, zero msg() calls, no panic. distinct = (program, leader, mismatch kind, party, order); every case is non-trivial".to_string(),
         _ => "batches of 1..8 two-party policies with concurrency 1..3, mixed leaders, output destination present or absent, random delivery orders, one failure injected into a single validate / run / consts RPC, cancels mixed in, plus the single-computation shapes for each failing RPC kind x destination x leader. Oracle: per leader the number of overlapping [first run RPC issued .. last RPC / output activity] intervals never exceeds the concurrency; at quiescence all permits are back; after a failed call the caller's actor has stopped and (run, consts) its destination got exactly one error notification, (validate) schedule returned Err or the destination got one. distinct = (batch size, concurrency, failing kind, cancel, case index); non-trivial = the scenario reached quiescence".to_string(),
     };
-    rep.assumptions = vec!["exact quiescence: paused clock idle, no pending delivery, no extra OS thread".into(), "HTTP layer not driven; decided at the server-core boundary".into()];
+    rep.assumptions = vec!["exact quiescence: paused clock idle, no pending delivery, no extra OS thread".into(), "C14 additionally drives the HTTP layer (real servers on loopback sockets, wall-clock timing, 2 parties); C13 / C15-C17 are decided at the server-core boundary".into()];
     let cs = cases(prop, tier, seed);
     let results = shard::run_parent(prop, tier, seed, cs.len(), crate::runner::threads(), &[]);
     let mut classes: std::collections::BTreeMap<String, u64> = Default::default();
@@ -791,5 +791,91 @@ pub fn run(prop: &'static str, tier: &str, seed: u64) -> i32 {
     if !classes.is_empty() {
         rep.set("cancel_points", json!(classes));
     }
+    if prop == "C14" {
+        http_layer(&mut rep, tier, seed);
+    }
     rep.finish()
+}
+
+/// C14 at the HTTP layer (api.rs): `httpx/target/release/hx` starts two real polytune-http-server
+/// instances and an output receiver on loopback sockets and runs 2-party computations, each with one stray
+/// HTTP request; this function judges its per-scenario records.
+fn http_layer(rep: &mut Report, tier: &str, seed: u64) {
+    let root = std::env::var("PV_ROOT").unwrap_or_else(|_| "/verif".into());
+    let exe = std::path::Path::new(&root).join("httpx/target/release/hx");
+    if !exe.exists() {
+        rep.set("http_layer", json!("not run: httpx/target/release/hx has not been built (./check builds it)"));
+        rep.inconclusive("HTTP-layer scenarios not run (hx binary missing)");
+        return;
+    }
+    let n = if tier == "thorough" { 440 } else { 88 };
+    let out = match std::process::Command::new(&exe).arg(seed.to_string()).arg(n.to_string()).output() {
+        Ok(o) => o,
+        Err(e) => {
+            rep.harness_error(format!("cannot run hx: {e}"));
+            return;
+        }
+    };
+    let text = String::from_utf8_lossy(&out.stdout);
+    let mut seen = 0u64;
+    let mut health_ok = false;
+    for l in text.lines() {
+        let Ok(d) = serde_json::from_str::<Value>(l) else { continue };
+        if let Some(h) = d.get("final_health") {
+            health_ok = h.as_array().map(|a| a.iter().all(|x| x.as_u64() == Some(200))).unwrap_or(false);
+            if !health_ok {
+                rep.violation("an HTTP server no longer answers /health after the stray requests".to_string(), d.clone());
+            }
+            rep.set("http_layer_wall_s", d["wall_s"].clone());
+            continue;
+        }
+        if d.get("scenario").is_none() {
+            continue;
+        }
+        seen += 1;
+        rep.evaluations += 1;
+        let kind = d["kind"].as_str().unwrap_or("?").to_string();
+        let moment = d["moment_ms"].as_i64().unwrap_or(0);
+        rep.distinct.insert(format!("http {} {} leader={} target={}", kind, if moment < 0 { "before-schedule".to_string() } else { format!("+{moment}ms") }, d["leader"], d["target"]));
+        // requests that are invalid in every state must be refused
+        let must_refuse = matches!(kind.as_str(), "ill-typed-schedule" | "run-unknown-id" | "consts-unknown-sender" | "consts-unknown-id" | "msg-out-of-range" | "msg-own-index" | "msg-unknown-id" | "msg-own-index-burst");
+        let statuses: Vec<Value> = d["stray_status"].as_array().cloned().unwrap_or_default();
+        if must_refuse {
+            for st in &statuses {
+                match st.as_u64() {
+                    Some(c) if (200..300).contains(&c) => rep.violation(format!("HTTP layer: a request that is invalid in every state was answered {c} ({kind})"), d.clone()),
+                    Some(_) => {}
+                    None => rep.violation(format!("HTTP layer: a stray request was not answered ({kind}): {}", st.as_str().unwrap_or("?")), d.clone()),
+                }
+            }
+        }
+        if !d["outcome_judged"].as_bool().unwrap_or(false) {
+            continue;
+        }
+        let outs = d["outputs"].as_array().cloned().unwrap_or_default();
+        let expected = d["expected"].as_u64().unwrap_or(u64::MAX);
+        let mut good = 0;
+        let mut bad: Option<String> = None;
+        for o in &outs {
+            if o["body"]["type"] == "success" && o["body"]["details"]["NumUnsigned"][0].as_u64() == Some(expected) {
+                good += 1;
+            } else {
+                bad = Some(o["body"]["type"].as_str().unwrap_or("?").to_string());
+            }
+        }
+        if let Some(b) = bad {
+            rep.violation(format!("HTTP layer: a refused stray request ({kind}) changed the outcome of the running computation (output destination received '{b}')"), d.clone());
+        } else if outs.len() > 2 {
+            rep.violation(format!("HTTP layer: an output destination was notified more than once after a stray request ({kind})"), d.clone());
+        } else if good < 2 {
+            // nothing (or not everything) arrived within the wall-clock watchdog: not a verdict
+            rep.inconclusive("HTTP layer: results did not arrive within 60 s");
+        }
+    }
+    rep.set("http_layer_scenarios", json!(seen));
+    if seen == 0 {
+        rep.harness_error(format!("hx produced no scenario records: {}", String::from_utf8_lossy(&out.stderr).lines().last().unwrap_or("")));
+    } else if !health_ok {
+        rep.inconclusive("hx did not report the final health of the servers");
+    }
 }
